@@ -174,7 +174,9 @@ def build(d):
         p = AHP.AdvancedHTMLParser()
         p.parseStr(render_html(tag, attrs))
         return p.getRoot()
-    e = AHP.AdvancedTag(tag, attrs)
+    # `uptag`: the constructor is given the tag name in upper case (the element's name, its void-ness and its tag-specific
+    # linked properties are those of the lower-case name)
+    e = AHP.AdvancedTag(tag.upper() if d.get('uptag') else tag, attrs)
     if how == 'direct':
         return e
     return make_copy(e, how)
